@@ -277,6 +277,27 @@ func (ev *Env) evo(e ast.Expr, old bool) Val {
 	case *ast.IndexExpr:
 		b := ev.evo(e.X, old)
 		i := ev.evo(e.Index, old)
+		if strings.HasPrefix(b.S, "(Array ") {
+			// (Array K V): select; V is the last sort of the array sort
+			inner := strings.TrimSuffix(strings.TrimPrefix(b.S, "(Array "), ")")
+			es := inner[strings.Index(inner, " ")+1:]
+			if strings.HasPrefix(inner, "(") {
+				// key sort is itself compound: find its closing parenthesis
+				d := 0
+				for k := 0; k < len(inner); k++ {
+					if inner[k] == '(' {
+						d++
+					} else if inner[k] == ')' {
+						d--
+						if d == 0 {
+							es = strings.TrimSpace(inner[k+1:])
+							break
+						}
+					}
+				}
+			}
+			return Val{S: es, T: fmt.Sprintf("(select %s %s)", b.T, i.T)}
+		}
 		if _, ok := U.seqs[b.S]; !ok {
 			limitf("index on non-sequence sort %s", b.S)
 		}
@@ -414,6 +435,9 @@ func (ev *Env) field(base Val, name string, old bool) Val {
 	nt, ok := t.(*types.Named)
 	if !ok {
 		limitf("selector .%s on %v", name, base.GT)
+	}
+	if _, isStruct := nt.Underlying().(*types.Struct); !isStruct {
+		limitf("selector .%s on %v, which is not a struct (use a specification function to look inside interface values)", name, base.GT)
 	}
 	si := U.structInfo(nt)
 	idx := -1
@@ -618,6 +642,24 @@ func (ev *Env) call(e *ast.CallExpr, old bool) Val {
 			return Val{S: "(Array " + ks + " Bool)", T: fmt.Sprintf("(select %s %s)", ev.heap(dn, "(Array "+ks+" Bool)", old), mv.T)}
 		}
 		return Val{S: "(Array " + ks + " " + vs + ")", T: fmt.Sprintf("(select %s %s)", ev.heap(vn, "(Array "+ks+" "+vs+")", old), mv.T)}
+	case "fieldheap":
+		// fieldheap("Struct", "field"): the heap array of a field (current, or at entry under old())
+		a0, ok0 := e.Args[0].(*ast.BasicLit)
+		a1, ok1 := e.Args[1].(*ast.BasicLit)
+		if !ok0 || !ok1 {
+			limitf("fieldheap(\"Struct\", \"field\")")
+		}
+		sn, _ := strconv.Unquote(a0.Value)
+		fn, _ := strconv.Unquote(a1.Value)
+		si := U.byName[sn]
+		if si == nil {
+			limitf("fieldheap: unknown struct %s", sn)
+		}
+		fi := fieldIndex(si, fn)
+		if fi < 0 {
+			limitf("fieldheap: unknown field %s.%s", sn, fn)
+		}
+		return Val{S: "(Array Int " + si.Fields[fi].Sort + ")", T: ev.heap(heapName(si, fi), si.Fields[fi].Sort, old)}
 	case "isnil":
 		v := arg(0)
 		n := ev.nilFor(v)
